@@ -1291,7 +1291,10 @@ MANIFEST_ENTRY = {
              '[-pi, pi] and every interval (keystone_wrap_iff), consecutive keystones round the circle share no angle also through the '
              'branch cut (keystone_wrap_disjoint), and with the arc start in [-pi, pi] (what the translated while loops establish: '
              'gen_keystone_start) and an arc of at most a turn the mask is membership modulo 2pi for ANY number of turns '
-             '(keystone_wrap_complete); the translated first-claim step of the hexagonal construction loop (local_mask &= ~mask[window]; '
+             '(keystone_wrap_complete); the start angle radians(k*360/nseg + rotation) - pi, the arc and the default rotation are '
+             'translated (gen_keystone_angles), advance by one arc per keystone with nseg arcs to the turn (keystone_angles_progress), and '
+             'two different keystones of one ring moved by ANY whole turns share no polar angle, for every ring rotation '
+             '(keystone_ring_disjoint: the rotation fix 5a01683 pinned by proof); the translated first-claim step of the hexagonal construction loop (local_mask &= ~mask[window]; '
              'mask[window] |= local_mask), iterated over ANY list of polygon masks, stores at most one owner per sample, leaves the '
              'aperture mask equal to the union, and a sample transmits iff exactly one stored mask holds it (claims_invariant / '
              '_exclusive / _union) -- so "no sample in two segments" for hexagonal apertures, touching ones included, no longer rests on '
